@@ -59,8 +59,8 @@ func c08(r *Report) propMeta {
 	r.Gate("fees-total-after-transfer", db, CallEff("Keeper.SetTotalFees"), []Cond{nilErrOf("BankKeeper.SendCoinsFromAccountToModule")}, GateOpts{FailIsError: true})
 
 	r.Rule("C08.R3", "E4 trigger rule")
-	r.ArgHas("sendall-def", pp, "keeper.GenerateNewPrices", 4, 1, "^binop:>=", "call:Context.BlockTime", "call:Time.Unix", "field:Tunnel.Interval", "field:LatestPrices.LastInterval", "binop:+")
-	due := Cond{Op: "LSS", A: []string{"call:Context.BlockTime"}, B: []string{"field:Tunnel.Interval", "field:LatestPrices.LastInterval", "binop:+"}, Want: false, Desc: "now >= interval + lastInterval (sendAll)"}
+	r.ArgHas("sendall-def", pp, "keeper.GenerateNewPrices", 4, 1, "^binop:>=", "binops=+", "call:Context.BlockTime", "call:Time.Unix", "field:Tunnel.Interval", "field:LatestPrices.LastInterval", "binop:+")
+	due := Cond{Op: "LSS", A: []string{"call:Context.BlockTime"}, B: []string{"field:Tunnel.Interval", "field:LatestPrices.LastInterval", "binop:+", "binops=+"}, Want: false, Desc: "now >= interval + lastInterval (sendAll)"}
 	r.Gate("last-interval-only-on-sendall", pp, StoreEff("LatestPrices.LastInterval"), []Cond{due}, GateOpts{})
 	r.FieldWriters("last-interval-writers", "LatestPrices.LastInterval", nil, []string{pp, uMS + "TriggerTunnel", "x/tunnel/types.NewLatestPrices"}, []string{"x/tunnel"})
 	r.ArgHas("prices-from-tunnel", pp, "keeper.GenerateNewPrices", 0, 1, "field:Tunnel.SignalDeviations", "call:Keeper.GetTunnel")
